@@ -21,6 +21,7 @@
 import RdfModel.Props.C10Defs
 import RdfModel.Spec.GraphIso
 import RdfModel.Proofs.C10Write
+import RdfModel.Proofs.C10EncDoc
 namespace RdfModel.C10
 open RdfModel RdfModel.Desc RdfModel.JL RdfModel.JLEnc
 
@@ -84,12 +85,170 @@ theorem encoder_roundtrip_partial [DecidableEq β] (mode11 : Bool) (base : Optio
     (`encForest`) validates (C17's theorem). The harness checks this implication on every generated case
     (`encode:natural-implies-cert`), and reports a disagreement if it fails. It is known to FAIL when an
     IRI of the dataset has a scheme equal to a used prefix (finding C10-K2): the full statement carries
-    that exclusion as `schemeClash`. -/
+    that exclusion as `schemeClash`.
+    UPDATE (round 3b): (a) and (b) are now proved under local decidable hypotheses — `encoder_context_read`,
+    `encoder_iri_roundtrip`, `encoder_doc_context` below; (c) and the assembly remain open
+    (`encCert_of_natural`). The hypothesis list of THIS def is too weak: the model refutes it for a prefix
+    name `@1`, a relative base, an empty blank node label and a base-relative `@id` containing a colon
+    (necessity witnesses N1–N3 in `Witness`); `encCert_of_natural` carries the corrected list. -/
 def encoder_roundtrip_natural [DecidableEq β] (acyclic : List (DQuad β) → Prop) (schemeClash : Cfg β → List (DQuad β) → Prop) : Prop :=
   ∀ (mode11 : Bool) (base : Option Str) (cfg : Cfg β) (d : List (DQuad β)) (ord ord2 : List (Term β)),
     Function.Injective cfg.label → WFDataset d → defaultGraphOnly d = true → noNativeTyped d = true →
     acyclic d → ¬ schemeClash cfg d → ord.Perm (defaultOrd d) → ord2.Perm (defaultOrd d) →
     ∃ doc out, encode cfg d ord ord2 = some doc ∧ toRdf mode11 base doc = some out ∧ Spec.IsoQ out d
+
+/-! ### Encoder direction under natural, local hypotheses (task builder-c10enc)
+
+  The certificate `encCert` of `encoder_roundtrip_partial` evaluates `toRdf` on the whole document. The
+  theorems below replace two of the three things the certificate was standing for — (a) that the
+  `@context` the encoder writes is processed into exactly the declared prefixes, (b) that IRI expansion
+  under that context inverts the encoder's three ways of writing an IRI — by proofs from decidable,
+  LOCAL hypotheses (`ctxOK`: about the declared prefixes; `compactOK`/`relOK`: about one IRI). What is
+  still NOT proved is the document-level induction (c): that the node objects `buildResource` produces
+  evaluate to `denForest` of the exported forest, and that the forest validates (`structOK`, C17's
+  business); `encCert_of_natural` below is the statement, kept as a `def`. -/
+
+/-- every usable prefix list is duplicate free -/
+theorem usedPrefixes_nodup [DecidableEq β] (cfg : Cfg β) (d : List (DQuad β)) (ord ord2 : List (Term β)) :
+    (usedPrefixes cfg d ord ord2).Nodup := by
+  unfold usedPrefixes
+  simp only []
+  split
+  · exact List.nodup_nil
+  · exact Proofs.C10.dedupStr_nodup _
+
+/-- **(a) The encoder's `@context` is read as intended.** If the declared prefixes satisfy `ctxOK`
+    (usable term names, absolute namespaces ending in a gen-delim, no namespace or dataset IRI whose
+    scheme is a declared prefix, an absolute base), then — in both processing modes and for every
+    document base — Context Processing of the context object `{"@base": cfg.base, p: ns, …}` succeeds
+    and yields an active context without vocabulary mapping and default language, whose base is the
+    configured one, in which every declared prefix is a term with the prefix flag set and IRI mapping
+    its namespace, and which has no other term (`GoodCtx`). -/
+theorem encoder_context_read [DecidableEq β] (mode11 : Bool) (base : Option Str) (cfg : Cfg β)
+    (d : List (DQuad β)) (ord ord2 : List (Term β)) (h : ctxOK cfg d ord ord2 = true) :
+    ∃ c, processCtxObj (Ctx.initial mode11 base) (Proofs.C10.ctxMs cfg.base (declared cfg d ord ord2)) = some c ∧
+      c.mode11 = mode11 ∧
+      Proofs.C10.GoodCtx (mkEnc cfg) cfg.base (usedPrefixes cfg d ord ord2)
+        ((declared cfg d ord ord2).map (·.1)) c := by
+  simp only [ctxOK, Bool.and_eq_true, List.all_eq_true] at h
+  obtain ⟨⟨hb, hd⟩, _⟩ := h
+  have hdecl : Proofs.C10.DeclOK cfg.base (declared cfg d ord ord2) :=
+    { base := by intro b hbs; rw [hbs] at hb; exact hb
+      name := fun e he => (hd e he).1.1.1
+      abs := fun e he => (hd e he).1.1.2
+      gd := fun e he => (hd e he).1.2
+      sch := fun e he => (hd e he).2
+      nodup := Proofs.C10.declOf_names_nodup _ _ (usedPrefixes_nodup cfg d ord ord2) }
+  exact Proofs.C10.goodCtx_of_decl (mkEnc cfg) cfg.base (usedPrefixes cfg d ord ord2)
+    (usedPrefixes_nodup cfg d ord ord2) (Ctx.initial mode11 base) rfl rfl rfl hdecl
+
+/-- **(b) Expansion inverts the encoder's compaction.** Under an active context as in (a), for every
+    absolute IRI `v` whose scheme is no declared prefix, which the prefix table shortens invertibly
+    (`compactOK`: C13's `compact_expand` through the UTF-8 conversions) through a used, usable prefix:
+    what `compactVocabIRI` writes (property names, `@type` values, datatypes) is no keyword, has a colon
+    and expands to `v` in vocabulary position; what `compactDocumentIRI` writes as a value of `@id` — a
+    compact IRI, a reference relative to the base passing `relOK`, or `v` itself — expands to `v` in
+    document position. -/
+theorem encoder_iri_roundtrip (E : Enc) (bs : Option Str) (used names : List Str) (c : Ctx)
+    (hc : Proofs.C10.GoodCtx E bs used names c) (hbase : bs.isSome = E.base.isSome) (v : Str)
+    (habs : absIri v = true) (hfree : schemeFree names v = true) (hcomp : compactOK E v = true)
+    (hused : ∀ p r, compactPrefix E v = some (p, r) → p ∈ used ∧ pfxNameOK p = true) :
+    ((compactVocabIRI E v).1.head? ≠ some cAt ∧ (compactVocabIRI E v).1.contains cColon = true ∧
+      ∀ vocab docRel, expandIri c vocab docRel (compactVocabIRI E v).1 = .iri v) ∧
+    ((∀ b, bs = some b → relOK E names b v = true) →
+      expandIri c false true (compactDocumentIRI E v).1 = .iri v) := by
+  have hok : Proofs.C10.IriOK E used names v :=
+    ⟨habs, hfree, hcomp, fun p r h => (hused p r h).1, fun p r h _ => (hused p r h).2⟩
+  exact ⟨Proofs.C10.vocabForm hc hok, fun hrel => Proofs.C10.docForm hc hbase hok hrel⟩
+
+/-- the `@context` member of the encoder's document is the context object of theorem (a) -/
+theorem encoder_doc_context [DecidableEq β] (cfg : Cfg β) (d : List (DQuad β)) (ord ord2 : List (Term β)) (doc : Json)
+    (h : encode cfg d ord ord2 = some doc) :
+    ∃ body, doc = .obj (body ++
+      (if Proofs.C10.ctxMs cfg.base (declared cfg d ord ord2) = [] then []
+       else [(kContext, .obj (Proofs.C10.ctxMs cfg.base (declared cfg d ord ord2)))])) := by
+  unfold encode at h
+  simp only [] at h
+  split at h
+  · cases h
+  · rename_i rs hrs
+    have hu : usedPrefixes cfg d ord ord2 = dedupStr (buildRoots (mkEnc cfg) cfg.label ((dbuild d).builder none) rs []).2 := by
+      unfold usedPrefixes; simp only []; rw [hrs]
+    have hd : declared cfg d ord ord2 = (dedupStr (buildRoots (mkEnc cfg) cfg.label ((dbuild d).builder none) rs []).2).filterMap
+        fun p => (ctxEntry (mkEnc cfg) p).map fun ns => (p, ns) := by
+      unfold declared; rw [hu]
+    rw [Proofs.C10.ctxMembers_eq, ← hd] at h
+    cases hcb : cfg.base with
+    | none =>
+      simp only [hcb] at h
+      simp only [Proofs.C10.ctxMs]
+      split at h
+      · rename_i ms _
+        simp only [Option.some.injEq] at h
+        exact ⟨ms, h.symm⟩
+      · simp only [Option.some.injEq] at h
+        exact ⟨[(kGraph, .arr _)], by rw [← h]; rfl⟩
+    | some b =>
+      simp only [hcb] at h
+      simp only [Proofs.C10.ctxMs]
+      split at h
+      · rename_i ms _
+        simp only [Option.some.injEq] at h
+        exact ⟨ms, h.symm⟩
+      · simp only [Option.some.injEq] at h
+        exact ⟨[(kGraph, .arr _)], by rw [← h]; rfl⟩
+
+/-- the hypotheses of (b) for one IRI -/
+def IriHyp (E : Enc) (used names : List Str) (v : Str) : Prop :=
+  absIri v = true ∧ schemeFree names v = true ∧ compactOK E v = true ∧
+    ∀ p r, compactPrefix E v = some (p, r) → p ∈ used ∧ pfxNameOK p = true
+
+/-- **(c1) One statement is read back.** Under an active context as in (a): the member name
+    `buildResource` files an ObjectStatement `p o` under classifies as the property `p` (plain term
+    definition), and the JSON value it writes for `o` — `{"@id": …}` for an IRI (not a value of `@type`) or a
+    blank node, a string, a typed or language-tagged value object for a literal that is not written as a
+    native number / boolean — evaluates to exactly the quad `s p o`, with blank nodes relabelled by `label`.
+    This is the statement level of the missing document induction (c); the nesting of AnonResources, the
+    grouping by member name, `@type` arrays and the root level are not covered. -/
+theorem encoder_statement_read [DecidableEq β] (E : Enc) (bs : Option Str) (used names : List Str) (c : Ctx)
+    (hc : Proofs.C10.GoodCtx E bs used names c) (hbase : bs.isSome = E.base.isSome)
+    (label : β → Str) (hne : ∀ b, label b ≠ []) (p : Str) (o : Term β) (used0 : List Str)
+    (hp : IriHyp E used names p) (hwf : wfObj o = true)
+    (hiri : ∀ v, o = .iri v → IriHyp E used names v)
+    (hdt : ∀ lex dt lang, o = .lit lex dt lang → dt ≠ xsdString → IriHyp E used names dt)
+    (hrel : ∀ v, o = .iri v → ∀ b, bs = some b → relOK E names b v = true)
+    (hnn : ∀ lex dt lang, o = .lit lex dt lang → (dt == xsdInteger || dt == xsdDouble || dt == xsdBoolean) = false)
+    (hty : ∀ v, o = .iri v → p ≠ rdfType) :
+    classifyKey c (buildStmt E label (.obj p o) used0).1 = .prop p TermDef.plain ∧
+      ∀ g s n, evalItem c TermDef.plain g s p (buildStmt E label (.obj p o) used0).2.1 n =
+        some ([quad s p (outTerm label o) g], n) := by
+  have cv : ∀ v, IriHyp E used names v → Proofs.C10.IriOK E used names v := fun v h =>
+    ⟨h.1, h.2.1, h.2.2.1, fun p r e => (h.2.2.2 p r e).1, fun p r e _ => (h.2.2.2 p r e).2⟩
+  have hkey := Proofs.C10.classifyKey_vocab hc (cv p hp)
+  cases o with
+  | iri v =>
+    have hne' := hty v rfl
+    simp only [buildStmt, hne', if_false]
+    refine ⟨hkey, fun g s n => ?_⟩
+    exact Proofs.C10.evalItem_iriObj hc hbase (cv v (hiri v rfl)) (hrel v rfl) g s p n
+  | bnode b =>
+    simp only [buildStmt]
+    exact ⟨hkey, fun g s n => Proofs.C10.evalItem_bnodeObj label hne c g s p b n⟩
+  | lit lex dt lang =>
+    simp only [buildStmt]
+    refine ⟨hkey, fun g s n => ?_⟩
+    exact Proofs.C10.evalItem_litObj hc lex dt lang hwf (hnn lex dt lang rfl)
+      (fun h => cv dt (hdt lex dt lang rfl h)) g s p n
+
+/-- The statement that would close the encoder direction: the natural hypotheses imply the certificate.
+    NOT PROVED (see the section comment: (a) and (b) are proved above, the document-level induction (c)
+    is missing; its statement level is `encoder_statement_read`). The driver evaluates both sides on every encoder case of the harness; a case with all
+    hypotheses true and `cert` false is reported as a disagreement (`encode:natural2`). -/
+def encCert_of_natural [DecidableEq β] : Prop :=
+  ∀ (mode11 : Bool) (base : Option Str) (cfg : Cfg β) (d : List (DQuad β)) (ord ord2 : List (Term β)),
+    WFDataset d → noNativeTyped d = true → labelsOK cfg d = true → ctxOK cfg d ord ord2 = true →
+    locOK cfg d ord ord2 = true → structOK cfg d ord ord2 = true →
+    encCert mode11 base cfg d ord ord2 = true
 
 /-! ### Non-vacuity: a dataset with a named graph, a shared blank node and a language-tagged literal -/
 
@@ -135,6 +294,85 @@ theorem cert : encCert true none cfg d0 (defaultOrd d0) (defaultOrd d0) = true :
 theorem natural : WFDataset d0 ∧ defaultGraphOnly d0 = true ∧ noNativeTyped d0 = true ∧ schemeClash cfg d0 = false := by
   decide
 
+
+/-- the hypotheses of `encCert_of_natural` / of theorems (a), (b) hold on this instance -/
+theorem natural2 : labelsOK cfg d0 = true ∧ ctxOK cfg d0 (defaultOrd d0) (defaultOrd d0) = true ∧
+    locOK cfg d0 (defaultOrd d0) (defaultOrd d0) = true ∧ structOK cfg d0 (defaultOrd d0) (defaultOrd d0) = true ∧
+    declared cfg d0 (defaultOrd d0) (defaultOrd d0) = [(asc "v", asc "http://e.org/v/")] := by
+  decide
+
+/-- … and the hypotheses of (b) for the predicate `p`: it is shortened to `v:p` through the used prefix `v` -/
+example : compactPrefix (mkEnc cfg) p = some (asc "v", asc "p") ∧ compactOK (mkEnc cfg) p = true ∧
+    schemeFree [asc "v"] p = true ∧ pfxNameOK (asc "v") = true ∧ (compactVocabIRI (mkEnc cfg) p).1 = asc "v:p" := by
+  decide
+
+/-! #### Necessity witnesses: dropping one hypothesis, the certificate fails in the model.
+    Replays on the Go encoder + decoder (harness, histogram `encode:witness:*`) are recorded in
+    props/C10.json `assumptions`: N2 (known C10-K1 / C13-K3) and N4 (known finding C10-K2) fail in Go as well; N2' is
+    the regression of the repaired defect C10-K5, N3/N5/N6 are outside the property's quantifier, N1 round-trips in Go (the
+    hypothesis is a limit of the fragment semantics, which refuses unknown `@…` members of a context). -/
+
+def lit (x : String) : Term Nat := .lit (asc x) xsdString none
+
+/-- N1 `ctxOK` (prefix name `@1`) -/
+example : let c : Cfg Nat := { cfg with prefixes := [(asc "@1", asc "http://e.org/v/")] }
+    ctxOK c d0 (defaultOrd d0) (defaultOrd d0) = false ∧ encCert true none c d0 (defaultOrd d0) (defaultOrd d0) = false := by
+  decide
+
+/-- N2 `locOK`/`relOK`: base `http://e.org/doc#f` (carries a fragment), subject equal to the base: written
+    as the empty reference, which RFC 3986 resolves to the base without its fragment (C13-K3 / C10-K1) -/
+example : let c : Cfg Nat := { cfg with base := some (asc "http://e.org/doc#f"), prefixes := [] }
+    let dd : List (DQuad Nat) := [⟨⟨.iri (asc "http://e.org/doc#f"), p, lit "x"⟩, none⟩]
+    locOK c dd (defaultOrd dd) (defaultOrd dd) = false ∧ ctxOK c dd (defaultOrd dd) (defaultOrd dd) = true ∧
+      structOK c dd (defaultOrd dd) (defaultOrd dd) = true ∧
+      encCert true none c dd (defaultOrd dd) (defaultOrd dd) = false := by
+  decide
+
+/-- N2' regression for fix c10-enc-5-rel-colon (commit ed9c0d1, finding C10-K5): base `http://e.org/doc`,
+    subject `http://e.org/doc#a://b`. The unrepaired encoder wrote `"@id": "#a://b"`, which a reader takes
+    for an absolute IRI; the repaired one writes the IRI in full, all hypotheses and the certificate hold. -/
+example : let c : Cfg Nat := { cfg with base := some (asc "http://e.org/doc"), prefixes := [] }
+    let dd : List (DQuad Nat) := [⟨⟨.iri (asc "http://e.org/doc#a://b"), p, lit "x"⟩, none⟩]
+    (compactDocumentIRI (mkEnc c) (asc "http://e.org/doc#a://b")).1 = asc "http://e.org/doc#a://b" ∧
+      locOK c dd (defaultOrd dd) (defaultOrd dd) = true ∧ ctxOK c dd (defaultOrd dd) (defaultOrd dd) = true ∧
+      encCert true none c dd (defaultOrd dd) (defaultOrd dd) = true := by
+  decide
+
+/-- N3 `labelsOK`: an empty label on a blank node referenced twice -/
+example : let c : Cfg Nat := { cfg with label := fun _ => [] }
+    let dd : List (DQuad Nat) := [⟨⟨s, p, .bnode 0⟩, none⟩, ⟨⟨s, p ++ asc "2", .bnode 0⟩, none⟩, ⟨⟨.bnode 0, p, lit "x"⟩, none⟩]
+    labelsOK c dd = false ∧ structOK c dd (defaultOrd dd) (defaultOrd dd) = true ∧
+      encCert true none c dd (defaultOrd dd) (defaultOrd dd) = false := by
+  decide
+
+/-- N4 `ctxOK` (scheme clash, finding C10-K2): prefix `urn` declared, object `urn:x:y` -/
+example : let c : Cfg Nat := { cfg with prefixes := [(asc "urn", asc "http://e.org/v/")] }
+    let dd : List (DQuad Nat) := [⟨⟨s, p, .iri (asc "urn:x:y")⟩, none⟩]
+    ctxOK c dd (defaultOrd dd) (defaultOrd dd) = false ∧ locOK c dd (defaultOrd dd) (defaultOrd dd) = true ∧
+      encCert true none c dd (defaultOrd dd) (defaultOrd dd) = false := by
+  decide
+
+/-- N5 `structOK` (named graph: the encoder drops the quad) -/
+example : structOK cfg d (defaultOrd d) (defaultOrd d) = false ∧
+    encCert true none cfg d (defaultOrd d) (defaultOrd d) = false := by
+  decide
+
+/-- N6 `noNativeTyped`: `"-0"^^xsd:integer` is written as the number `-0` and read back as `"0"` -/
+example : let dd : List (DQuad Nat) := [⟨⟨s, p, .lit (asc "-0") xsdInteger none⟩, none⟩]
+    noNativeTyped dd = false ∧ structOK cfg dd (defaultOrd dd) (defaultOrd dd) = true ∧
+      encCert true none cfg dd (defaultOrd dd) (defaultOrd dd) = false := by
+  decide
+
 end Witness
+
+
+/-- non-vacuity of `IriHyp` (and of the hypotheses of `encoder_statement_read`): the predicate of the witness -/
+example : IriHyp (mkEnc Witness.cfg) [asc "v"] [asc "v"] Witness.p :=
+  ⟨by decide, by decide, by decide, fun p r h => by
+    have : compactPrefix (mkEnc Witness.cfg) Witness.p = some (asc "v", asc "p") := by decide
+    rw [this] at h
+    simp only [Option.some.injEq, Prod.mk.injEq] at h
+    obtain ⟨rfl, rfl⟩ := h
+    exact ⟨by decide, by decide⟩⟩
 
 end RdfModel.C10
